@@ -190,6 +190,8 @@ let dispatch (op : string) (x : v) : v =
        | M.Ok s -> L [S "ok"; of_z s.M.s_name; of_q s.M.s_x; of_q s.M.s_y; of_list of_z s.M.s_flags;
                       of_list of_q s.M.s_flux; of_list of_q s.M.s_err]
        | M.Err e -> L [S "err"; of_err e])
+  | "attach", [extra; names] ->
+      of_opt (of_list of_q) (M.attach_col (to_list (to_pair to_z to_q) extra) (to_list to_z names))
   | "read_files", [files] ->
       of_opt (of_list (of_list (of_pair of_z (of_list of_q))))
         (M.read_files [] (to_list (to_list (to_pair to_z (to_list to_q))) files))
